@@ -56,8 +56,8 @@ def main():
             rc, out = sh("cmake --build %s 2>&1 | tail -15" % b)
             res["patched_build_ok"] = rc == 0 and "FAILED" not in out and "error:" not in out
             res["patched_build_tail"] = out[-500:]
-            rc, out = sh("ctest --test-dir %s -j8 --timeout 900 2>&1 | tail -6" % b)
-            res["tests_with_patch"] = out.strip().split("\n")[-3:] if out else []
+            rc, out = sh("ctest --test-dir %s -j8 --timeout 900 2>&1" % b)
+            res["tests_with_patch"] = [l for l in out.split("\n") if "tests passed" in l or "Failed" in l][:5]
             res["tests_pass"] = "100% tests passed, 0 tests failed out of 88" in out
             rc, out = sh(["sh", os.path.join(dcopy, "run_demo.sh"), b], cwd=dcopy, timeout=900, env=env)
             res["demo_on_patched"] = {"rc": rc, "tail": out[-600:]}
